@@ -769,6 +769,14 @@ class EffectDomain(DefaultDomain):
             return None
         fn, seq = value[1], unbox(value[2], st)   # (a list kept on the heap: what it holds now)
         els = interp._exact_elements(seq)
+        if els is None and isinstance(seq, tuple) and seq[:1] in (("genobj",), ("lazycomp",), ("iterobj",), ("seqiter",), ("lazymap",)):
+            # map over something that is itself produced on demand: that is run to its end first
+            inner = self.force_sequence(interp, seq, st, fr)
+            if inner is not None:
+                out = []
+                for g in inner:
+                    out.extend([g] if g.kind == "exc" else (self.force_sequence(interp, ("lazymap", fn, g.value), g.state, fr) or [val(TOP, g.state)]))
+                return out
         if els is None:
             return [val(TOP, st)]
         cur = [(st, ())]
